@@ -944,6 +944,25 @@ func c03edits() []c03edit {
 			defs["Unused"] = jm{"type": "object", "properties": jm{"x": jm{"type": "string"}}}
 			return true
 		}},
+		{"model-properties-named-like-keywords", true, func(d jm) bool {
+			// property names are free: a model may call its members items, type, properties, default,
+			// headers, required, id, $schema, in, name, schema, allOf … (the object validator looks at
+			// some of these names when it applies the Swagger-only array checks)
+			defs := jo(d["definitions"])
+			if defs == nil {
+				defs = jm{}
+				d["definitions"] = defs
+			}
+			inner := jm{"type": "object", "properties": jm{"items": jm{"type": "integer"}, "type": jm{"type": "integer"}, "properties": jm{"type": "string"}}}
+			defs["Keywords"] = jm{"type": "object", "required": jl{"items", "type"}, "properties": jm{
+				"items": jm{"type": "string"}, "type": jm{"type": "string"}, "properties": inner, "default": jm{"type": "string"},
+				"example": jm{"type": "string"}, "examples": jm{"type": "string"}, "headers": jm{"type": "object"}, "required": jm{"type": "boolean"}, "enum": jm{"type": "string"},
+				"id": jm{"type": "integer"}, "$schema": jm{"type": "string"}, "in": jm{"type": "string"}, "name": jm{"type": "string"},
+				"schema": inner, "allOf": jm{"type": "array", "items": jm{"type": "string"}}, "additionalProperties": jm{"type": "boolean"},
+				"definitions": jm{"type": "object", "properties": jm{"items": jm{"type": "string"}}},
+			}}
+			return true
+		}},
 		{"move-parameter-to-path-item", true, func(d jm) bool {
 			for _, o := range c03ops(d) {
 				l := ja(o.op["parameters"])
